@@ -132,6 +132,33 @@ def _guarded_execute(mach, run, props, timeout_s):
     return res, err
 
 
+_CURRENT = {"index": None, "guard": False}
+
+
+def _start_rss_guard():
+    """A worker that grows beyond VERIF_MAX_RSS_MB (default 6000) names the run it is executing and exits, instead of
+    taking the whole machine down with it (the parent then reports a HARNESS-ERROR, never a verdict)."""
+    if _CURRENT["guard"]:
+        return
+    _CURRENT["guard"] = True
+    import threading
+    limit = int(os.environ.get("VERIF_MAX_RSS_MB", "6000"))
+
+    def watch():
+        while True:
+            time.sleep(0.5)
+            try:
+                rss = int(open("/proc/self/statm").read().split()[1]) * 4096 >> 20
+            except Exception:
+                return
+            if rss > limit:
+                sys.stderr.write(f"HARNESS-ERROR worker exceeded {limit} MB resident memory while executing run index {_CURRENT['index']}\n")
+                sys.stderr.flush()
+                os._exit(86)
+
+    threading.Thread(target=watch, daemon=True).start()
+
+
 def work_chunk(args):
     machine, prop, tier, verif_seed, start, count, run_timeout = args
     mach = get_machine(machine)
@@ -144,7 +171,9 @@ def work_chunk(args):
         "viol_count": Counter(),
         "harness_errors": [], "samples": [], "digest": hashlib.sha256(), "hang": False,
     }
+    _start_rss_guard()
     for index in range(start, start + count):
+        _CURRENT["index"] = (machine, prop, tier, verif_seed, index)
         # last line of defence against a worker that neither finishes nor reacts to the watchdog: re-armed for every
         # run (plain, traced re-run and stuck verdict together take at most 8 watchdog periods)
         faulthandler.dump_traceback_later(run_timeout * 10 + 600, exit=True)
